@@ -185,7 +185,7 @@ package config
 // C10: a valid v1 document yields one effective kubernetes binding per declared one, in the
 // declared order, with the documented defaults.
 //@ func (*HookConfigV1).ConvertAndCheck
-//@   prop C10
+//@   prop C10, C09
 //@   requires cv1 != nil && c != nil && c.V1 == cv1
 //@   modifies fields(c), allelems(htypes.OnKubernetesEventConfig), allelems(htypes.ScheduleConfig), allelems(htypes.ValidatingConfig), allelems(htypes.MutatingConfig), allelems(htypes.ConversionConfig), allelems(string), allelems(v1.ValidatingWebhook)
 //@   ensures [kubernetes/count]    result == nil ==> len(c.OnKubernetesEvents) == len(cv1.OnKubernetesEvent)
